@@ -120,6 +120,44 @@ Theorem C13_dial_frame : forall (prot : obj -> protection) (m : N) (p0 : pool) (
 Proof. exact dial_frame. Qed.
 Print Assumptions C13_dial_frame.
 
+(* ---- which state may be read without c.mutex: only fields no method ever assigns (c.connTimeout in checkConn /
+   CloseWithSMTPClient) and c.smtpClient, whose only writer is DialWithContext (under c.mutex.Lock) — the
+   "established connection" precondition of the property ---- *)
+Theorem C13_unlocked_reads_stable_in_source : ob_unlocked_reads_stable = true /\ ob_smtpclient_single_writer = true.
+Proof. exact (conj ob_unlocked_reads_stable_true ob_smtpclient_single_writer_true). Qed.
+Print Assumptions C13_unlocked_reads_stable_in_source.
+
+(* ---- the smtp.Client level: c.Text only with smtp.Client.mutex held exclusively, c.conn only with it held, in
+   every method of smtp.Client; the private smtp.Client of DialAndSend never escapes its goroutine ---- *)
+Theorem C13_smtp_client_in_source : ob_smtp_text_conn_locked = true /\ ob_private_client_owned = true /\ ob_send_no_rlock = true.
+Proof. exact (conj ob_smtp_text_conn_locked_true (conj ob_private_client_owned_true ob_send_no_rlock_true)). Qed.
+Print Assumptions C13_smtp_client_in_source.
+
+(* ownership, model side: an object only goroutine j's program touches is accessed by j alone, under every schedule *)
+Theorem C13_private_object_owner : forall (p0 : pool) (j : nat) (o : obj) (sched : list nat),
+  (forall i, i <> j -> touches o (p0 i) = false) ->
+  forall i e a, In (i, e) (trace (run (init p0) sched)) -> access e = Some (o, a) -> i = j.
+Proof. exact private_object_owner. Qed.
+Print Assumptions C13_private_object_owner.
+
+(* shared connection: all access to connection 0 and its smtp.Client goes through sendMutex — two goroutines are
+   never both about to touch them (reads included), for every schedule *)
+Theorem C13_shared_conn_exclusive : forall sends others sched,
+  (forall p b, In (p, b) sends -> In p send_paths /\ hole_ok prot_c13 send_mutex b = true) ->
+  (forall t, In t others -> disc prot_c13 h0 t = true /\ no_rlock send_mutex t = true) ->
+  forall i j e1 t1 e2 t2, i <> j ->
+    thr (run (init (c13_pool sends others)) sched) i = e1 :: t1 ->
+    thr (run (init (c13_pool sends others)) sched) j = e2 :: t2 ->
+    guarded_by prot_c13 send_mutex e1 = true -> guarded_by prot_c13 send_mutex e2 = true -> False.
+Proof. exact c13_shared_conn_exclusive. Qed.
+Print Assumptions C13_shared_conn_exclusive.
+
+(* the inner level alone: the generated cmd / dataCloser sections exclude each other even without sendMutex
+   (the pool whose transactions interleave in C13_without_lock_refuted) *)
+Theorem C13_cmd_sections_exclusive : forall sched, race_free (run (init nolock_pool) sched).
+Proof. exact cmd_sections_exclusive. Qed.
+Print Assumptions C13_cmd_sections_exclusive.
+
 (* non-vacuity: with the sendMutex operations removed (only cmd's per-command lock left) two goroutines
    interleave NOOP a / NOOP b / MAIL a / MAIL b / RCPT a / RCPT b ... on the shared connection *)
 Theorem C13_without_lock_refuted :
@@ -156,4 +194,10 @@ Proof. split; vm_compute; reflexivity. Qed.
 (* a dial that caches something in a Client field while holding only the read lock is rejected *)
 Example C13_ex_write_under_rlock_rejected :
   disc prot_dial h0 [RLock cfg_mutex; Acc cfg_obj R; Acc cfg_obj W; RUnlock cfg_mutex] = false.
+Proof. vm_compute. reflexivity. Qed.
+Example C13_ex_guarded_by :
+  guarded_by prot_c13 send_mutex (Conn 0 (item "M" 1)) = true /\ guarded_by prot_c13 send_mutex (Acc (smtp_obj 0) R) = true
+  /\ guarded_by prot_c13 send_mutex (Conn 1 (item "M" 1)) = false.
+Proof. vm_compute. repeat split. Qed.
+Example C13_ex_dial_thread_no_rlock_sm : no_rlock send_mutex (dial_thread 1 1 2) = true.
 Proof. vm_compute. reflexivity. Qed.
